@@ -145,7 +145,9 @@ def floor(ctx):
     from harness import watchdog
     watchdog.reset()
     from harness import smifuzz
-    strings = smifuzz.strings(ctx.seed + 2, 1500 if ctx.tier == 'quick' else 20000) + domain(ctx.tier, ctx.seed)
+    from harness import encfloor
+    strings = (smifuzz.strings(ctx.seed + 2, 1500 if ctx.tier == 'quick' else 20000) + encfloor.long_chain_cases()
+               + domain(ctx.tier, ctx.seed))
     strings = strings[-10:] + strings[:-10]
     res = pmap(_work, [[x] for x in strings[:10]] + chunks(strings[10:], 48))
     return {'evaluations': sum(r[0] for r in res), 'distinct_nontrivial': sum(r[1] for r in res),
